@@ -83,6 +83,8 @@ def jobs(tier):
     for dis in (False, True):
         for mt in (False, True):
             out.append({"kind": "broker", "n": 2 if q else 3, "disconnect": dis, "min_timeout": mt})
+    # requests that expect no reply (produce with acks=0): complete when written, time out if never written
+    out.append({"kind": "broker", "n": 2, "disconnect": False, "min_timeout": False, "noreply": True})
     out.append({"kind": "bootstrap"})
     return out
 
@@ -122,7 +124,7 @@ def _broker(job):
         limit = T if M is None else sym_max(T, M)
         client._update_brokers([BrokerMetadata(1, "h", 9092)])
         broker = client._get_brokerclient(1)
-        ctx.sig("broker disconnect=%s min_timeout=%s n=%d" % (job["disconnect"], job["min_timeout"], n))
+        ctx.sig("broker disconnect=%s min_timeout=%s n=%d%s" % (job["disconnect"], job["min_timeout"], n, " noreply" if job.get("noreply") else ""))
 
         connect_never = ctx.choose("connect", 2) == 1
         cdelay = None if connect_never else ctx.real("connect_delay", 0, 1000)
@@ -136,14 +138,15 @@ def _broker(job):
             r.res = []
             r.t_res = None
             r.issued = clock.seconds()
-            r.reply_never = ctx.choose("reply", 2) == 1
+            r.expect = not (job.get("noreply") and ctx.choose("expect", 2) == 1)
+            r.reply_never = (not r.expect) or ctx.choose("reply", 2) == 1
             r.delay = None if r.reply_never else ctx.real("reply_delay", 0, 1000)
             r.reply_at = None
             r.replied = False
             r.written = 0
             reqs.append(r)
             ctx.log("issue", r.cid, r.issued)
-            d = client._make_request_to_broker(broker, r.cid, r.payload, min_timeout=M)
+            d = client._make_request_to_broker(broker, r.cid, r.payload, expectResponse=r.expect, min_timeout=M)
 
             def on(v, r=r):
                 r.res.append(v)
@@ -164,6 +167,8 @@ def _broker(job):
                 if r.payload in fr and getattr(r, "on_tr", None) is not tr:
                     r.on_tr = tr
                     r.written += 1
+                    if r.res and isinstance(r.res[0], Failure) and r.t_res is not None and r.written == 1:
+                        ctx.check(False, "timed-out-request-never-written-later", "request %d failed at %s and was written to a connection afterwards" % (r.cid, r.t_res))
                     if not r.reply_never and not r.replied:
                         ext.append([clock.seconds() + r.delay, "reply", (r, tr)])
 
@@ -261,6 +266,8 @@ def _broker(job):
                             trs = net.transports
                             if trs and not trs[-1].closed:
                                 ctx.check(trs[-1].lose_requested, "disconnect-on-timeout-drops-and-resends", "timeout did not drop the silent connection")
+                    elif not r.expect:
+                        ctx.check(v is None and r.written >= 1, "no-reply-request-completes-when-written", "no-reply request %d resolved with %r, written %d times" % (r.cid, v, r.written))
                     else:
                         ok = isinstance(v, bytes) and v[:4] == struct.pack(">i", r.cid)
                         ctx.check(ok, "timed-out-iff-no-reply-by-deadline", "request %d resolved with %r" % (r.cid, v))
